@@ -177,7 +177,7 @@ pub fn parse_list(all: &[bool], family: Family) -> Result<Parsed, ParseErr> {
         }
     };
     let len = nat(&mut pos)? as usize;
-    if len > 1_000_000 {
+    if len > 50_000_000 {
         return Err(ParseErr::BadNatural);
     }
     let mut list = Vec::with_capacity(len.min(10_000));
